@@ -14,6 +14,12 @@ from framework.registry import target, job, PROPS, COMMON_ASSUME
 #    not judged) on >= 40 cells incl. cells lacking the in-cell pressure-column entry, and builds the same object with
 #    1, 4 and 8 OpenMP threads (weights, pressure matrix, action bitwise equal) -- catches seeded C09-5.  The older cpr_drs
 #    sub-check keeps the weaker documented semantics (weight or 0, zero thresholds drop nothing, App = Fpp A).
+#  * the matrix-free Schur operator is checked directly through backend::spmv (alpha in {1,-1,2,0.5}, beta in {0,1,-1}) and
+#    backend::residual at random x, and type 1 / 2 exactness is repeated with inner pressure solvers that re-evaluate the true
+#    residual at non-zero iterates (gmres(2), fgmres(3), richardson; tol 1e-12; weakly coupled systems with
+#    ||P^-1 (S - P)|| < 1/2 so that convergence is guaranteed) -- catches seeded C18-5.
+#  * block-input cpr / cpr_drs: partial_update histories (unchanged matrix bitwise; perturbed matrix without / with transfer
+#    update against the scalar twin, a fresh object and the formula) -- catches seeded C18-6.
 #  * scalar-vs-block CPR is compared to a rounding bound (the property says "identically"; a correct block
 #    implementation may order the b x b elimination differently); bitwise agreement is recorded as an observation.
 #  * input rows are sorted (unsorted rows are C17 / finding F13).
